@@ -321,15 +321,15 @@ def limit_duty_cycle(
             if _DBG_DISABLE_DUTY_CYCLE_LIMIT:
                 bits_in_bucket = BUCKET_CAPACITY
 
-            # if required, wait for the bit bucket to refill (not for SETs/PUTs)
-            if bits_in_bucket < rf_frame_size:
-                await asyncio.sleep((rf_frame_size - bits_in_bucket) / FILL_RATE)
+            # consume the bits from the bit bucket *before* any wait, so that callers
+            # arriving while this one sleeps see its claim (else they all overspend)
+            bits_in_bucket -= rf_frame_size
 
-            # consume the bits from the bit bucket
-            try:
-                await fnc(self, frame, *args, **kwargs)
-            finally:
-                bits_in_bucket -= rf_frame_size
+            # if in debt, wait for the bit bucket to refill (not for SETs/PUTs)
+            if bits_in_bucket < 0:
+                await asyncio.sleep(-bits_in_bucket / FILL_RATE)
+
+            await fnc(self, frame, *args, **kwargs)
 
         @wraps(fnc)
         async def null_wrapper(
